@@ -670,7 +670,16 @@ def moves_from_lvalue_ref(f):
                         for dd in s2["decls"]:
                             if dd["id"] == d["id"] and dd.get("init"):
                                 tgt = path(f, f.s(dd["init"]))
+                                ie = unwrap(f, f.s(dd["init"]))
+                                if tgt is None and ie is not None:
+                                    # element access on a container: m_vec[i], m_vec.at(i), m_vec.front()
+                                    if ie["k"] == "CXXOperatorCallExpr" and ie.get("op") == "[]" and ie["args"]:
+                                        tgt = path(f, f.s(ie["args"][0]))
+                                    elif ie["k"] == "CXXMemberCallExpr" and (ie.get("callee") or {}).get("name") in ("at", "front", "back"):
+                                        tgt = path(f, f.s(ie.get("obj")))
                 own_local = False
+                if tgt and (tgt.startswith("this.") or tgt.startswith("this->")):
+                    own_local = True        # the class's own member storage: rearranging it is the member function's business
                 if tgt and tgt.startswith("l:") and "->" not in tgt and "*" not in tgt:
                     root = tgt.split(".")[0]
                     for s2 in f.stmts.values():
